@@ -47,8 +47,20 @@ def run(ctx: Ctx, tier: str) -> Result:
     # ---------------- CHAIN
     ga = p.func(CS + ".__getattribute__")
     tries = list(t.nodes_in(ga, ast.Try))
-    need(len(tries) == 1 and tries[0].handlers, "__getattribute__: try/except AttributeError not found")
-    tr = tries[0]
+    own_tries = [x for x in tries if any(isinstance(c, ast.Call) and norm(c.func) == "super().__getattribute__" for b in x.body for c in ast.walk(b))]
+    need(len(own_tries) == 1 and own_tries[0].handlers, "__getattribute__: try/except AttributeError not found")
+    tr = own_tries[0]
+    # no other failure is turned into a value: a setting given in code that cannot be evaluated must not quietly resolve to
+    # a lower-precedence source
+    for x in tries:
+        if x is tr:
+            continue
+        for h_ in x.handlers:
+            rets_ = [n for n in ast.walk(h_) if isinstance(n, ast.Return)]
+            falls = not paths.always_exits(h_.body)
+            if rets_ or falls:
+                res.fail(Finding("C19.CHAIN", ga.qname, h_, ga.loc(h_), "a failure while resolving a setting is answered with another value (%s): a code-supplied value that fails on one "
+                                 "read resolves to the environment / default on that read - the precedence is not the same on every read" % (norm(rets_[0])[:50] if rets_ else "falls through")))
     h = tr.handlers[0]
     own = [c for c in ast.walk(ast.Module(body=tr.body, type_ignores=[])) if isinstance(c, ast.Call) and norm(c.func) == "super().__getattribute__"]
     if own and g.catches(h, "AttributeError", ga) and not g.reraises(h):
